@@ -861,8 +861,8 @@ theorem ramseyWitness_holds (G : SimpleG) (hG : GoodGraph G) (k s : Nat) (sb : B
     · exact ramP_of_gt G k s sb (α 1) (by omega)
         (fun hsb => hinc hsb i a i' b c j d e j' d' e' r r')
 
-/-- non-vacuity: in the path `1-2-3` (`k = 2`, `s = 3`) the table `[1, 3]` with `¬C` is NOT enough (three rows are
-in use under `¬C`), the table `[1, 2]` with `C` is a 2-clique -/
+/-- non-vacuity: in the path `1-2-3` with `k = 2`, `s = 3` two rows are in use under `C`, and `[1, 2]` is the table of
+a 2-clique -/
 example : IsRamseyTable ⟨3, 2, [[], [2], [1, 3], [2]], [(3, 2), (2, 3), (2, 1), (1, 2)]⟩ (ramRows 2 3 true) true true [1, 2] :=
   ⟨rfl, by decide, by decide, by decide⟩
 
@@ -961,6 +961,12 @@ theorem ramseyWitness_sat_iff (G : SimpleG) (hG : GoodGraph G) (k s : Nat) (sb :
     rintro (⟨S, ⟨hs, hr, hm⟩, hk⟩ | ⟨S, ⟨hs, hr, hm⟩, hk⟩)
     · exact build true S hs hr hm hk
     · exact build false S hs hr hm hk
+
+/-- non-vacuity with `k ≠ s`: the path `1-2-3` has the 2-clique `{1, 2}` (and no independent set of size 3), so the
+formula for `k = 2`, `s = 3` is satisfiable -/
+example : ∃ α, (ramseyWitnessCore ⟨3, 2, [[], [2], [1, 3], [2]], [(3, 2), (2, 3), (2, 1), (1, 2)]⟩ 2 3 true).holds α = true :=
+  (ramseyWitness_sat_iff _ (goodGraph_of_edgeset _ (by decide)) 2 3 true).2
+    (Or.inl ⟨[1, 2], ⟨by decide, by decide, by decide⟩, rfl⟩)
 
 theorem ramseyWitness_documented (G : SimpleG) (hG : GoodGraph G) (k s : Nat) (sb : Bool) :
     RamseyWitnessDocumented G k s sb := ramseyWitness_sat_iff G hG k s sb
